@@ -1,6 +1,7 @@
 import PfModel.DriverVal
 import PfModel.Model.Validate
 import PfModel.Model.ValidateEdit
+import PfModel.Model.ValidateNarrow
 import PfModel.Generated.C12Facts
 import PfModel.DriverC12Ctor
 /-! Driver for C12 (`validate`): construction and the start of `map` on a possibly ill-formed request.
@@ -156,10 +157,21 @@ def handle (m : String) (a : Json) : R Json := do
                        fixed := ← optF (asList (asPair asStr getSel)) a "fixed",
                        folder := ← boolF a "folder", cleanup := ← boolF a "cleanup", executor := ← boolF a "executor",
                        parallel := ← boolF a "parallel", order := order, prev := prev }
-      let orderOk := orderValid fs order && (match prev with | some p => orderValid p.funcs p.order | none => true)
-      let (effs, res) := startMap fs r
+      -- round 4: `auto_subpipeline=True` / a proper `output_names` selection narrow the pipeline first (`startMapN`; without
+      -- either it IS `startMap`, `C12_narrow_plain`); `order` is then `sorted_functions` of the narrowed pipeline
+      let auto := (← optF asBool a "auto").getD false
+      let nar := narrow fs r auto
+      let sub := match nar with | .ok s => s | .error _ => fs
+      let orderGiven := (← optF (asList asStr) a "order").isSome
+      let orderOk := (if auto || r.outputNames.isSome then
+                        (match nar with | .ok s => orderValid s order || !orderGiven | .error _ => true)
+                      else orderValid fs order) &&
+                     (match prev with | some p => orderValid p.funcs p.order | none => true)
+      let (effs, res) := startMapN fs r auto
       return jObj [("construct", putRes c), ("map", putRes res), ("effects", jList putEffect effs), ("order_ok", jBool orderOk),
-                   ("steps", jList jStr ((startSteps fs r).map fun s => match s with | .check n _ => n | .eff _ => "effect"))]
+                   ("narrow", match nar with | .ok s => jList (fun f => jStr f.name) s | .error e => jStr e.check),
+                   ("roots", jList jStr (rootArgs sub)),
+                   ("steps", jList jStr ((startSteps sub r.narrowed).map fun s => match s with | .check n _ => n | .eff _ => "effect"))]
   | "order" =>
     -- the extracted call order of `prepare_run` / `RunInfo.create` and the verdict of the order predicate
     return jObj [("calls", jList (fun c => jArr [jStr c, putKind (classify c)]) Generated.prepareRunCalls),
@@ -192,6 +204,9 @@ def handle (m : String) (a : Json) : R Json := do
                       isSubseq ["f.update_defaults", "self._clear_internal_cache", "raise", "self._validate"] Generated.pipelineUpdateDefaultsCalls &&
                       isSubseq ["f.update_renames", "self._clear_internal_cache", "raise", "self._validate"] Generated.pipelineUpdateRenamesCalls)),
                    ("prepare_run:_validate_executor_names", jBool ((beforeFirstEffect Generated.prepareRunCalls).contains "_validate_executor_names"))]),
+                 ("round4", jObj [
+                   ("prepare_run:unconditional-validations", jBool (alwaysValidated Generated.prepareRunUnconditional &&
+                      isSubseq Generated.prepareRunUnconditional Generated.prepareRunCalls))]),
                  ("unknown_calls", jList jStr
                    ((Generated.runMapCalls ++ Generated.runMapAsyncCalls).filter (fun c => classifyRun c == .unknown) ++
                     (Generated.pipelineInitCalls ++ Generated.pipelineAddCalls ++ Generated.pipelineValidateCalls ++
